@@ -350,3 +350,44 @@ m("c09-not-a-service", "C09", "O9.0", (D + "buffer.py", "@service(flavour=trio)\
 m("c09-flavour-mismatch", "C09", "O9.0", (C + "linear.py", "@service(flavour=trio)", "@service(flavour=asyncio)"), (C + "linear.py", "import trio\n", "import trio\nimport asyncio\n"))
 m("c17-add-time-bool", "C17", "O17.7", (M + "format_json.py", "self._add_time = self.datefmt or self.datefmt is None", "self._add_time = bool(self.datefmt)"))
 m("c17-whitelist-mapping-only", "C17", "O17.5", (M + "format_line.py", "self._tags_whitelist = set(tags) if tags is not None else set()", "self._tags_whitelist = set(tags) if isinstance(tags, Mapping) else set()"))
+
+# ------------------------------------------------------------------ from the mutation-sweep triage (test-passing mutants no check reported)
+m("c02-join-first-exception", "C02", "O2.2", (R + "meta_runner.py", "return_exceptions=True", "return_exceptions=False"))
+m("c12-stopped-not-set", "C12", "O2.6", (R + "base_runner.py", "        finally:\n            self._stopped.set()", "        finally:\n            pass"))
+m("c12-stopped-set-out-of-finally", "C12", "O2.6", (R + "base_runner.py", "        finally:\n            self._stopped.set()", "        self._stopped.set()"))
+n("c12-n-stopped-set-helper", "C12", (R + "base_runner.py", "        finally:\n            self._stopped.set()", "        finally:\n            self._mark_stopped()\n\n    def _mark_stopped(self):\n        self._stopped.set()"))
+m("c15-spawn-not-added", "C15", "O15.4", (K + "factory.py", "            self._hatchery.add(new_child)\n", "            pass\n"))
+m("c15-reap-releases-nothing", "C15", "O15.3", (K + "factory.py", "            if child.demand <= 0:\n                self._release_child(child)", "            if child.demand <= 0:\n                pass"))
+m("c15-supply-returns-none", "C15", "O15.5", (K + "factory.py", "        return sum(child.supply for child in self.children)", "        pass"))
+m("c15-demand-write-dropped", "C15", "O15.6", (K + "factory.py", "        self._demand = value\n", "        pass\n"))
+m("c15-demand-readback-none", "C15", "O15.6", (K + "factory.py", "        return self._demand\n", "        return None\n"))
+m("c15-run-orientation", "C15", "O9.5", (K + "factory.py", "            if supply > demand:", "            if supply < demand:"))
+m("c07-allocation-returns-none", "C07", "O7.4", (K + "uniform.py", "            return sum(child.allocation for child in self.children) / len(self.children)", "            pass"))
+m("c07-demand-not-initialised", "C07", "O7.1", (K + "uniform.py", "        self._demand = sum(child.demand for child in children)", "        pass"))
+m("c13-adopt-deleted", "C13", "O13.1", (G + "core/main.py", "    runtime.adopt(_load_services, configuration, flavour=asyncio)\n", ""))
+m("c13-adopt-swapped", "C13", "O13.1", (G + "core/main.py", "runtime.adopt(_load_services, configuration, flavour=asyncio)", "runtime.adopt(configuration, _load_services, flavour=asyncio)"))
+m("c13-logger-unbound", "C13", "O0.1", (G + "core/main.py", "    logger = logging.getLogger(__package__)\n", ""))
+m("c13-options-unbound", "C13", "O0.1", (G + "core/main.py", "    options = CLI.parse_args()\n", ""))
+m("c04-signature-guard-inverted", "C04", "O4.3", (R + "service.py", "if signature is not None:", "if signature is None:"))
+m("c04-signature-unbound", "C04", "O0.1", (R + "service.py", "        except (TypeError, ValueError):\n            signature = None", "        except (TypeError, ValueError):\n            pass"))
+m("c03-self-unbound", "C03", "O0.1", (R + "service.py", "                self = __new__(cls, *args, **kwargs)", "                pass"))
+n("c12-n-shutdown-without-wait", "C12", (R + "service.py", "        self._is_shutdown.wait()\n", ""))
+m("c08-table-not-returned", "C08", "O8.4", (C + "stepwise.py", "        return lookup\n", "        return None\n"))
+m("c08-table-entry-dropped", "C08", "O8.4", (C + "stepwise.py", "            lookup[low, high] = rule\n", "            pass\n"))
+m("c08-base-range-from-1", "C08", "O8.4", (C + "stepwise.py", 'return {(0, float("inf")): base}', 'return {(1, float("inf")): base}'))
+m("c08-lower-bounds-from-1", "C08", "O8.4", (C + "stepwise.py", "            chain([0], thresholds),", "            chain([1], thresholds),"))
+m("c08-bounds-swapped", "C08", "O8.4", (C + "stepwise.py", '            chain([0], thresholds),\n            chain(thresholds, [float("inf")]),', '            chain(thresholds, [float("inf")]),\n            chain([0], thresholds),'))
+m("c08-table-not-stored", "C08", "O8.4", (C + "stepwise.py", "        self._lookup = self._compile_lookup(base, rules)", "        pass"))
+m("c08-add-not-recorded", "C08", "O8.6", (C + "stepwise.py", "            self.rules.append((supply, rule))\n", ""))
+m("c08-call-args-swapped", "C08", "O8.6", (C + "stepwise.py", "return Stepwise(target, self.base, *self.rules)", "return Stepwise(self.base, target, *self.rules)"))
+m("c08-call-interval-inverted", "C08", "O8.6", (C + "stepwise.py", "        if interval is None:\n            return Stepwise", "        if interval is not None:\n            return Stepwise"))
+m("c08-selector-without-rules", "C08", "O8.6", (C + "stepwise.py", "        self._selector = RangeSelector(base, *rules)", "        self._selector = RangeSelector(base)"))
+m("c08-target-not-bound", "C08", "O8.6", (C + "stepwise.py", "        super().__init__(target)\n        self.interval = interval", "        self.interval = interval"))
+n("c08-n-table-list-star", "C08", (C + "stepwise.py", '            chain([0], thresholds),\n            chain(thresholds, [float("inf")]),\n            chain([base], _rules),', '            [0, *thresholds],\n            [*thresholds, float("inf")],\n            [base, *_rules],'))
+n("c08-n-call-kwargs", "C08", (C + "stepwise.py", "        if interval is None:\n            return Stepwise(target, self.base, *self.rules)\n        return Stepwise(target, self.base, *self.rules, interval=interval)", "        extra = {} if interval is None else {\"interval\": interval}\n        return Stepwise(target, self.base, *self.rules, **extra)"))
+m("c14-required-default-true", "C14", "O14.5", (G + "plugins.py", "after: Iterable[str] = (), required: bool = False", "after: Iterable[str] = (), required: bool = True"))
+m("c09-buffer-pending-not-initialised", "C09", "O9.4", (D + "buffer.py", "        self.demand = target.demand\n", ""))
+m("c09-buffer-target-not-bound", "C09", "O9.4", (D + "buffer.py", "        super().__init__(target=target)\n", ""))
+m("c17-line-empty-payload", "C17", "O17.8", (M + "format_line.py", "        if args == ({},):  # logger.info('message', {}) -> record.args == ({},)\n            args = {}", "        if args == ({},):  # logger.info('message', {}) -> record.args == ({},)\n            pass"))
+m("c17-json-empty-payload", "C17", "O17.8", (M + "format_json.py", "        if args == ({},):  # logger.info('message', {}) -> record.args == ({},)\n            args = {}", "        if args == ({},):  # logger.info('message', {}) -> record.args == ({},)\n            pass"))
+n("c17-n-empty-payload-ifexp", "C17", (M + "format_json.py", "        args = record.args\n        if args == ({},):  # logger.info('message', {}) -> record.args == ({},)\n            args = {}", "        args = {} if record.args == ({},) else record.args"))
